@@ -21,9 +21,20 @@ From TT Require Gen.Bytest.
 
 Definition tag := nat.
 Definition text := list nat.            (* a str, as code points *)
-Definition name := nat.                 (* detail names, numbered by the harness so that numeric = string order *)
-Definition n_reason : name := 1.        (* "reason" *)
-Definition n_traceback : name := 2.     (* "traceback" *)
+(* detail names are the str keys of the details dict, as they are: 'traceback', 'traceback-1',
+   'traceback-1-2' (TestCase._report_traceback), 'tracebackx', 'reason', 'reason-1', ... are all
+   different names; what the code does with a name is compare it (==, dict lookup) and sort it *)
+Definition name := text.
+Definition n_reason : name := [114; 101; 97; 115; 111; 110].                      (* "reason" *)
+Definition n_traceback : name := [116; 114; 97; 99; 101; 98; 97; 99; 107].        (* "traceback" *)
+Definition name_eqb : name -> name -> bool := list_eqb Nat.eqb.                   (* str.__eq__ *)
+(* str.__le__: lexicographic on code points, a proper prefix first *)
+Fixpoint name_leb (a b : name) : bool :=
+  match a, b with
+  | [], _ => true
+  | _ :: _, [] => false
+  | x :: a', y :: b' => if x <? y then true else if y <? x then false else name_leb a' b'
+  end.
 
 (* ---------- values that travel ---------- *)
 (* what an err argument can be: an exc_info the caller supplied (token k), the exception
@@ -128,14 +139,6 @@ Fixpoint join (sep : text) (l : list text) : text :=
   end.
 Definition ends_nl (t : text) : bool := match rev t with c :: _ => c =? nl | [] => false end.
 
-(* the harness's pool of detail names; any other number prints as "zlog" *)
-Definition name_text (n : name) : text :=
-  match n with
-  | 0 => [97; 116; 116; 97; 99; 104]                       (* attach *)
-  | 1 => [114; 101; 97; 115; 111; 110]                     (* reason *)
-  | 2 => [116; 114; 97; 99; 101; 98; 97; 99; 107]          (* traceback *)
-  | _ => [122; 108; 111; 103]                              (* zlog *)
-  end.
 Definition t_open : text := [58; 32; 123; 123; 123].       (* ": {{{" *)
 Definition t_close : text := [125; 125; 125].              (* "}}}" *)
 Definition t_binary_hdr : text := [66; 105; 110; 97; 114; 121; 32; 99; 111; 110; 116; 101; 110; 116; 58; 10].   (* "Binary content:\n" *)
@@ -147,10 +150,11 @@ Definition t_octet : text :=   (* " (application/octet-stream)\n" *)
 (* _format_text_attachment *)
 Definition format_attachment (n : name) (t : text) : text :=
   if existsb (Nat.eqb nl) t
-  then name_text n ++ t_open ++ [nl] ++ t ++ [nl] ++ t_close ++ [nl]
-  else name_text n ++ t_open ++ t ++ t_close.
+  then n ++ t_open ++ [nl] ++ t ++ [nl] ++ t_close ++ [nl]
+  else n ++ t_open ++ t ++ t_close.
 
-Definition detail_leb (a b : detail) : bool := fst a <=? fst b.
+(* sorted(details.items()): the names are distinct, so the Content objects are never compared *)
+Definition detail_leb (a b : detail) : bool := name_leb (fst a) (fst b).
 
 (* as_text() of a detail that is treated as text (a DTb is a text/x-traceback whose text the
    model does not know: it never reaches _details_to_str in a well-formed run) *)
@@ -170,7 +174,7 @@ Fixpoint d2s_scan (special : option name) (ds : details)
           let s := strip t in
           match s with
           | [] => (bin, n :: emp, txt, sp)
-          | _ => if option_eqb Nat.eqb (Some n) special
+          | _ => if option_eqb name_eqb (Some n) special      (* key == special *)
                  then (bin, emp, txt, Some (s ++ [nl]))
                  else (bin, emp, format_attachment n s :: txt, sp)
           end
@@ -183,8 +187,8 @@ Definition details_to_str (ds : details) (special : option name) : text :=
   let '(bin, emp, txt, sp) := d2s_scan special (isort detail_leb ds) in
   let txt1 := if negb (is_nil txt) && negb (ends_nl (last txt [])) then txt ++ [[]] else txt in
   let txt2 := match sp with Some s => txt1 ++ [s] | None => txt1 end in
-  (if is_nil bin then [] else t_binary_hdr ++ flat_map (fun n => [32; 32] ++ name_text n ++ t_octet) bin)
-  ++ (if is_nil emp then [] else t_empty_hdr ++ flat_map (fun n => [32; 32] ++ name_text n ++ [nl]) emp)
+  (if is_nil bin then [] else t_binary_hdr ++ flat_map (fun n => [32; 32] ++ n ++ t_octet) bin)
+  ++ (if is_nil emp then [] else t_empty_hdr ++ flat_map (fun n => [32; 32] ++ n ++ [nl]) emp)
   ++ (if negb (is_nil bin && is_nil emp) && negb (is_nil txt2) then [nl] else [])
   ++ join [nl] txt2.
 
@@ -194,7 +198,7 @@ Definition details_to_exc_info (d : details) : errv := Str (details_to_str d (So
 Fixpoint lookup (n : name) (d : details) : option dkind :=
   match d with
   | [] => None
-  | (m, k) :: r => if n =? m then Some k else lookup n r
+  | (m, k) :: r => if name_eqb n m then Some k else lookup n r
   end.
 
 (* addSkip's fallback: details["reason"].as_text(), on KeyError _details_to_str(details) *)
